@@ -2,7 +2,8 @@
 (* C06: ring perception against the declarative definition.
    record: [atoms, bonds (<<a,b,order>>), rings (reported sssr, sequences of positions), rc (rings_count), ncomp,
             comps (connected components as sequences), ainr (per atom in_ring 0/1), asz (per atom sorted ring sizes),
-            binr (per bond <<a,b,in_ring>>), sizes2 (sorted ring sizes reported for a renumbered / re-inserted rebuild)] *)
+            binr (per bond <<a,b,in_ring>>), sizes2 (sorted ring sizes reported for a renumbered / re-inserted rebuild),
+            exc (optional: ring perception raised on this graph - the other fields then only describe the graph)] *)
 EXTENDS Rings, Json
 CONSTANT CH
 R == JsonDeserialize("data.json")
@@ -15,7 +16,9 @@ Bag(q) == [x \in SeqSet(q) |-> Cardinality({ k \in 1..Len(q) : q[k] = x })]
 RingsOf(m, a) == { k \in 1..Len(m.rings) : a \in RingSet(m.rings[k]) }
 InDomainMin(m) == ~ThetaGap(m) /\ ~DenseCage(m)
 
+Raised(m) == "exc" \in DOMAIN m /\ m.exc # ""
 Verdict(m) ==
+  IF Raised(m) THEN (IF InDomainMin(m) THEN {"ring-perception-raised:" \o m.exc} ELSE {}) ELSE
   LET wellformed == \A k \in 1..Len(m.rings) : IsSimpleCycle(m, m.rings[k]) IN
   If(Len(m.rings) # Cyclomatic(m), "ring-count")
   \cup If(m.rc # Cyclomatic(m), "rings_count")
